@@ -883,6 +883,7 @@ func runC18(c *Ctx) error {
 		c18One(c, m, schema, f.Case)
 		return nil
 	}
+	kfReproC18(c.Rep)
 	c18Twins(c, schema)
 	n := c.N(1500, 60000)
 	for i := 0; i < n; i++ {
